@@ -6,6 +6,7 @@ CONSTANTS
   OrderedMerge = TRUE
   ReadsLeak = FALSE
   OrderedScan = TRUE
+  Aliases = FALSE
 INVARIANT DumpInputs
 CONSTRAINT Stop
 CHECK_DEADLOCK FALSE
